@@ -80,6 +80,22 @@ CLAIMED["C09"] = {
     "technique": "Lean 4 theorems (provenance invariants, exact integer arithmetic) + bit-exact differential correspondence + independent oracle",
 }
 
+CLAIMED["C08"] = {
+    "text": "Proof. Lean theorems by induction over every host history of a model instance with any number of ports: at most one "
+            "port is Slave and a master-only port never is (Inv; step_inv for every op incl. BMCA runs, reachable_inv from "
+            "Inst.new); a state decision S1 is only issued to the port whose own foreign-master list produced Ebest (bmca_inv_with, "
+            "through C05.decision_payload and port-identity well-formedness); an instance slave-only from the start never has a "
+            "Master port (slave_only_from_start) and after a run-time switch no port is Master once the next BMCA run completed, nor "
+            "later (slave_only_at_runtime); every frame and measurement emitted by any host call is role-guarded "
+            "(emitters_guarded: Announce/Sync/Follow_Up/Delay_Resp only from a port that was Master, Delay_Req only from the Slave "
+            "port, sync/delay measurements only on the Slave port; BMCA runs emit no frames). Model tied by the inst stream "
+            "(states, frame types, measurements, demobilisations after every op) plus an independent role oracle on the implementation.",
+    "note": "Trusted: Lean kernel; generators. 'Adjusts the clock' is modelled as 'hands a sync/delay measurement to its filter': the "
+            "servo itself is the host's Filter implementation. The BMCA hypothesis (every port passed exactly once) is what "
+            "PtpInstance::bmca asserts / the borrow checker enforces.",
+    "technique": "Lean 4 theorems (invariant by induction over host histories) + differential correspondence + independent role oracle",
+}
+
 CLAIMED["C14"] = {
     "text": "Proof. Lean theorems: a completed peer exchange hands the filter exactly ((t4'-t1)-(t3'-t2))/2 (Spec.peerDelay, `fixed` "
             "division semantics), stamped t4', for every timestamp and correction value; a Pdelay_Resp or follow-up for the current "
